@@ -131,8 +131,9 @@ Check_C03(s, e, o, s2) ==
     ELSE IF s.st = "active" /\ IsB(e, "PINGRESP") THEN
         TagsIf(Len(OneC(o, "PINGRESP")) # 1, Tag("C03", "pingresp-not-one", "active"))
     ELSE IF s.st = "active" /\ IsB(e, "SUBACK") /\ Len(e.m.codes) = 1
-            /\ (\E x \in s.ctx : x.mid = e.m.mid /\ x.kind = "sub")
-            /\ e.m.mid \notin (s.coin \cup s.super) THEN
+            /\ (\E x \in s.ctx : x.mid = e.m.mid /\ x.kind = "sub") THEN
+        \* also when the message ID coincides with a broker exchange or was reused by the client:
+        \* the SUBACK answers the exchange now stored under that ID
         LET x == CHOOSE x \in s.ctx : x.mid = e.m.mid /\ x.kind = "sub"
             r == OneC(o, "SUBACK")
             code == e.m.codes[1]
@@ -159,8 +160,7 @@ Check_C04(s, e, o, s2) ==
               UNION {IF o.outC[i].t = "REGACK" /\ o.outC[i].rc = 0
                      THEN IdClauses(s, o.outC[i].tid, e.p.topic, "REGACK") ELSE {} : i \in DOMAIN o.outC}
           ELSE {})
-         \cup (IF IsB(e, "SUBACK") /\ (\E x \in s.ctx : x.mid = e.m.mid /\ x.kind = "sub" /\ x.tit = 0)
-                  /\ e.m.mid \notin (s.coin \cup s.super) THEN
+         \cup (IF IsB(e, "SUBACK") /\ (\E x \in s.ctx : x.mid = e.m.mid /\ x.kind = "sub" /\ x.tit = 0) THEN
                  LET x == CHOOSE x \in s.ctx : x.mid = e.m.mid /\ x.kind = "sub" /\ x.tit = 0 IN
                  UNION {IF o.outC[i].t = "SUBACK" /\ o.outC[i].rc = 0 /\ o.outC[i].tid # 0
                         THEN IdClauses([s EXCEPT !.exhausted = FALSE], o.outC[i].tid, x.name, "SUBACK")
